@@ -32,8 +32,8 @@ theorem noLive_of_key {P : Pods} {s : State} {ip : IP} {r : Rec} (hs : Safe P s)
   rw [hip, hg] at h1; cases h1
   exact hk ⟨q, hq, h2.symm⟩
 
-theorem uidZero_newOK {P : Pods} (n : Option Rec) (h : uidZero n) : ∀ r, n = some r → NewOK P r :=
-  fun r hr _ _ _ => Or.inl (h r hr)
+theorem uidZero_newOK {P : Pods} (n : Option Rec) (_h : uidZero n) : ∀ r, n = some r → NewOK P r :=
+  fun _ _ => trivial
 
 /-- an IPAM-level change of records under a key no live bound pod has -/
 theorem Inv.step_of_chg_key {s s' : State} (h : Inv s) (k : Key) (hk : ¬ LiveKey s.pods k) (hc : Coherent s')
